@@ -48,7 +48,9 @@ func (w *World) collect(vs []*view) {
 		rs := v.rs
 		id := v.nd.id
 		if rs.Proposal != nil {
-			w.pool.AddProposal(rs.Proposal, w.proposerID(rs), false, "")
+			if it := w.pool.AddProposal(rs.Proposal, w.proposerID(rs), false, ""); it != nil {
+				it.Held = true
+			}
 		}
 		if rs.ProposalBlockParts != nil && rs.ProposalBlockParts.IsComplete() {
 			w.pool.AddPartSet(rs.Height, rs.ProposalBlockParts, id, false)
@@ -103,7 +105,9 @@ func (w *World) collectVotes(vset *types.VoteSet) {
 	}
 	for i := 0; i < vset.Size(); i++ {
 		if vote := vset.GetByIndex(i); vote != nil {
-			w.pool.AddVote(vote, w.valIDByAddr(vote.ValidatorAddress), false, "")
+			if it := w.pool.AddVote(vote, w.valIDByAddr(vote.ValidatorAddress), false, ""); it != nil {
+				it.Held = true
+			}
 		}
 	}
 }
@@ -302,6 +306,11 @@ func (w *World) apply(a simrt.Action) bool {
 			return false
 		}
 		nd.crashes++
+		h := int64(0)
+		if nd.digLast != nil {
+			h = nd.digLast.H
+		}
+		nd.crash = &crashInfo{prev: nd.digPrev, last: nd.digLast, armed: a.A > 0, claims: nd.claimsAt[h]}
 		if a.A <= 0 {
 			w.Kill(nd, "crash now")
 			w.Faults.Inc("crash_now")
@@ -323,7 +332,10 @@ func (w *World) apply(a simrt.Action) bool {
 			exec.Command("cp", "-r", filepath.Join(nd.dir, "cs.wal"), fmt.Sprintf("%s/n%d-gen%d", d, nd.id, nd.gens)).Run()
 		}
 		if a.A > 0 {
-			w.truncateWAL(nd, a.A)
+			cut := w.truncateWAL(nd, a.A)
+			if nd.crash != nil {
+				nd.crash.truncated = cut
+			}
 			// a torn tail legitimately loses the newest inputs: the lock monitor starts over
 			if ls := w.locks[nd.id]; ls != nil {
 				ls.bound = false
@@ -380,6 +392,7 @@ func (w *World) Deliver(nd *Node, it *Item, from int) {
 	if it.Kind == kClaim {
 		inc.claims[claimKey(it.R, it.Type, it.Claim.Key())] = w.Step
 		w.Probes.Inc("maj23_claim_delivered")
+		nd.claimsAt[it.H]++
 	}
 	w.ledgerDelivered(nd, it)
 	recovered := false
@@ -417,25 +430,26 @@ func sortedPeerIDs(inc *Incarnation) []int {
 	return ids
 }
 
-func (w *World) truncateWAL(nd *Node, cut int64) {
+func (w *World) truncateWAL(nd *Node, cut int64) int64 {
 	path := filepath.Join(nd.dir, "cs.wal", "wal")
 	fi, err := os.Stat(path)
 	if err != nil {
-		return
+		return 0
 	}
 	last, ok := nd.lastFileWrite[path]
 	if !ok || last > fi.Size() {
-		return
+		return 0
 	}
 	span := fi.Size() - last // bytes of the last write
 	if span <= 0 {
-		return
+		return 0
 	}
 	if cut > span {
 		cut = span
 	}
 	os.Truncate(path, fi.Size()-cut)
 	w.Faults.Inc("wal_tail_truncated")
+	return cut
 }
 
 // afterStep: detect deaths, export artefacts, evaluate invariants.
@@ -459,6 +473,12 @@ func (w *World) afterStep() {
 		o.AfterStep(w, vs)
 	}
 	for _, v := range vs {
+		if w.TrackDigests {
+			d := MakeDig(v.rs)
+			if v.nd.digLast == nil || len(v.nd.digLast.diff(d)) > 0 {
+				v.nd.digPrev, v.nd.digLast = v.nd.digLast, d
+			}
+		}
 		w.States[abstractState(v)] = true
 		w.Log.Add("n%d h%d r%d s%d", v.nd.id, v.rs.Height, v.rs.Round, v.rs.Step)
 		if w.Log.Keep {
